@@ -41,7 +41,7 @@ class H:
 
     def __init__(self, name, src, link=(), stubs=(), defines=None, unwind=1, unwindset=(),
                  checks="mem", extra=(), solver="default", timeout=600, tiers=("quick", "thorough"),
-                 kf=(), bounds="", functions=(), witness="inline", objbits=None, fsa=None,
+                 kf=(), bounds="", functions=(), witness="inline", objbits=10, fsa=None,
                  malloc_may_fail=False, native_units=None, note="", nondet_static=False,
                  include_env=("log_stub",), incs=(), probe_for=None):
         self.name = name
@@ -187,32 +187,38 @@ class Ctx:
         return lib
 
     # -- goto objects of repo units, with the given function bodies removed
-    def unit_obj(self, unit, stubs, defines_key=""):
+    def unit_obj(self, unit, stubs, udefs=()):
         stubs = tuple(sorted(stubs))
-        key = (unit, stubs, defines_key)
+        udefs = tuple(sorted(udefs))
+        key = (unit, stubs, udefs)
         with self.lock:
             fut = self.unit_futs.get(key)
             if fut is None:
-                fut = _Lazy(lambda: self._build_unit(unit, stubs))
+                fut = _Lazy(lambda: self._build_unit(unit, stubs, udefs))
                 self.unit_futs[key] = fut
         return fut.get()
 
-    def _build_unit(self, unit, stubs):
+    def _build_unit(self, unit, stubs, udefs=()):
         srcf = os.path.join(SRC, unit + ".c")
-        tag = hashlib.md5((unit + "|" + ",".join(stubs)).encode()).hexdigest()[:10]
+        dtag = hashlib.md5(",".join(udefs).encode()).hexdigest()[:6]
+        tag = hashlib.md5((unit + "|" + ",".join(stubs) + "|" + ",".join(udefs)).encode()).hexdigest()[:10]
         obj = os.path.join(self.scratch, "u_" + unit.replace("/", "_") + "_" + tag + ".o")
-        raw = os.path.join(self.scratch, "u_" + unit.replace("/", "_") + "_raw.o")
+        raw = os.path.join(self.scratch, "u_" + unit.replace("/", "_") + "_" + dtag + "_raw.o")
         with self.lock:
-            need_raw = not os.path.isfile(raw + ".done")
-        if need_raw:
+            rl = self.unit_futs.setdefault(("rawlock", raw), threading.Lock())
+        with rl:
+          need_raw = not os.path.isfile(raw + ".done")
+          if need_raw:
             inc = []
             sub = os.path.dirname(unit)
             if sub:
                 inc = ["-I" + os.path.join(SRC, sub)]
-            rc, out, err, *_ = sh(["goto-cc", "-DVERIF_CBMC=1", "-U__SSE2__"] + self.cc_base + inc + ["-c", srcf, "-o", raw], timeout=600)
+            rc, out, err, *_ = sh(["goto-cc", "-DVERIF_CBMC=1", "-U__SSE2__"] + self.cc_base + inc + ["-D" + d for d in udefs] + ["-c", srcf, "-o", raw], timeout=600)
             if rc != 0:
                 raise BuildError("goto-cc failed for %s:\n%s" % (unit, (out + err)[-3000:]))
             open(raw + ".done", "w").close()
+        if True:
+            pass
         if not stubs:
             return raw
         cmd = ["goto-instrument"]
@@ -268,7 +274,9 @@ def build_harness(ctx, h, extra_defines=()):
     srcs = [os.path.join(VERIF, "harness", h.src)]
     for e in h.include_env:
         srcs.append(os.path.join(VERIF, "env", e + ".c"))
-    objs = [ctx.unit_obj(u, h.stubs) for u in h.link]
+    # hook defines (LIBSNDFILE_VERIF_*) must reach the linked repo units as well
+    udefs = ["%s=%s" % (k, v) for k, v in h.defines.items() if k.startswith("LIBSNDFILE_VERIF")]
+    objs = [ctx.unit_obj(u, h.stubs, udefs) for u in h.link]
     defs = ["-D%s=%s" % (k, v) if v is not None else "-D%s" % k for k, v in h.defines.items()]
     defs += ["-D" + d for d in extra_defines]
     incs = ["-I" + os.path.join(SRC, i) for i in h.incs]
@@ -298,7 +306,9 @@ def cbmc_cmd(h, gb, trace=False, prop=None):
         cmd += ["--external-sat-solver", "kissat"]
     elif h.solver in ("cadical", "minisat2"):
         cmd += ["--sat-solver", h.solver]
-    cmd += list(h.extra)
+    if "--no-slice" not in h.extra:
+        cmd += ["--slice-formula"]     # sound: drops assignments no obligation depends on (and keeps bit-blasting small)
+    cmd += [e for e in h.extra if e != "--no-slice"]
     if trace:
         cmd += ["--trace"]
     if prop:
@@ -362,20 +372,21 @@ def is_unwind(r):
 
 
 def extract_values(trace):
-    """nd_* scalar assignments in trace order -> list of (width, hexbits, lhs, data)."""
+    """nd_* scalar assignments in trace order -> list of (width, hexbits, lhs, data, file, line)."""
     vals = []
     for s in trace:
         if s.get("stepType") != "assignment" or s.get("hidden"):
             continue
         lhs = s.get("lhs", "")
         base = re.split(r"[\[.]", lhs)[0]
-        if not base.startswith("nd_"):
+        if not base.startswith("nd_") or base == "nd_i_":
             continue
         v = s.get("value", {})
         b = v.get("binary")
         if b is None:
             continue
-        vals.append((len(b), "%x" % int(b, 2), lhs, v.get("data")))
+        sl = s.get("sourceLocation") or {}
+        vals.append((len(b), "%x" % int(b, 2), lhs.replace(" ", ""), v.get("data"), os.path.basename(sl.get("file", "?")), int(sl.get("line", 0) or 0)))
     return vals
 
 
@@ -388,10 +399,12 @@ def native_replay(ctx, h, values, outdir, extra_defines=()):
     os.makedirs(outdir, exist_ok=True)
     valf = os.path.join(outdir, "values.txt")
     with open(valf, "w") as f:
-        for w, hx, lhs, data in values:
-            f.write("%d %s\n" % (w, hx))
+        for v in values:
+            w, hx, lhs, data, fl, ln = (list(v) + ["?", 0])[:6]
+            f.write("%s %d %d %s %s\n" % (fl, ln, w, hx, lhs))
     with open(os.path.join(outdir, "values_named.txt"), "w") as f:
-        for w, hx, lhs, data in values:
+        for v in values:
+            w, hx, lhs, data = v[:4]
             f.write("%s = %s (0x%s, %d bits)\n" % (lhs, data, hx, w))
     exe = os.path.join(ctx.scratch, "replay_" + hashlib.md5(h.name.encode()).hexdigest()[:10])
     cc = ["gcc", "-g", "-O0", "-fsanitize=address,undefined", "-fno-sanitize-recover=undefined",
@@ -486,6 +499,7 @@ def run_one(ctx, h, known_keys, replay_root):
             r.detail = "no results from cbmc (rc=%s): %s %s" % (rc, "; ".join(pr["errors"])[:800], err[-800:])
             return r
         failed = []
+        unknown = []
         for p in pr["results"]:
             if is_witness(p):
                 if p["status"] == "FAILURE":
@@ -497,8 +511,10 @@ def run_one(ctx, h, known_keys, replay_root):
             elif is_artefact(p):
                 r.artefacts += 1
                 r.n_props -= 1
-            else:
+            elif p["status"] == "FAILURE":
                 failed.append(p)
+            else:
+                unknown.append(p)    # UNKNOWN: lies behind a failed unwinding assertion
         if h.witness == "twin":
             gbw, _ = build_harness(ctx, h, extra_defines=excl + ["WITNESS_ONLY"])
             # find witness property id
@@ -522,6 +538,7 @@ def run_one(ctx, h, known_keys, replay_root):
             confirmed = False
             unconfirmed = False
             only_unwind = all(is_unwind(p) for p in failed)
+            failed.sort(key=lambda p: 1 if is_unwind(p) else 0)
             for p in failed[:4]:
                 entry = {"property": p["property"], "description": p.get("description", ""),
                          "location": _loc(p)}
@@ -569,6 +586,10 @@ def run_one(ctx, h, known_keys, replay_root):
                 r.detail = "unwinding bound exceeded but native run terminates"
             else:
                 r.status = "unconfirmed"
+            return r
+        if unknown:
+            r.status = "inconclusive"
+            r.detail = "%d obligations UNKNOWN (behind an unwinding bound): %s" % (len(unknown), unknown[0].get("description", "")[:120])
             return r
         if not r.witness_reached:
             r.status = "vacuous"
